@@ -367,7 +367,9 @@ static void pv (sb_t * o, svalue_t * sv, int depth)
               pv (&items[cnt], &n->values[1], depth + 1);
               /* the entry must also be FOUND through its key (m[key]): a node linked into the wrong bucket is listed
                  by keys() / values() / a re-save, but no lookup reaches it */
-              if (node_find_in_mapping (m, &n->values[0]) != n
+              /* (a NaN key equals nothing, itself included: no mapping ever finds it; its bucket is still checked) */
+              if ((node_find_in_mapping (m, &n->values[0]) != n
+                   && !(n->values[0].type == T_REAL && n->values[0].u.real != n->values[0].u.real))
                   || i != (svalue_to_int (&n->values[0]) & (int) m->table_size))
                 {
                   sb_t k = { 0, 0, 0 };
